@@ -31,6 +31,8 @@ class BitcoinVM(VM):
         )
 
     def pop_nonnegative(self) -> int:
+        if len(self[-1]) > 4:
+            raise ScriptError("script number overflow", errno.UNKNOWN_ERROR)
         v = self.pop_int()
         if v < 0:
             raise ScriptError(
